@@ -16,7 +16,7 @@ URLS = {
     "T": ["https://t.example/token", "https://t2.example/token?y=2", "https://t.example/" + "a" * 70000],
     "D": ["https://d.example/device", "https://d2.example/device#frag"],
     "I": ["https://i.example/introspect", "https://i2.example/introspect"],
-    "R": ["https://r.example/revoke", "http://r.example/revoke", "HTTPS://r2.example/revoke"],
+    "R": ["https://r.example/revoke", "http://r.example/revoke", "HTTPS://r2.example/revoke"],   # index 0 https, 1 http
 }
 SECRETS = ["bbb", "p:w ä", ""]
 REDIRS = ["https://client/cb", "https://client/other?x=1"]
